@@ -22,7 +22,7 @@ ADDR = re.compile(r"0x[0-9a-fA-F]+")
 
 def strategy_turnstile(tier):
     n_max = 5 if tier == "quick" else 16
-    cfg = gen.Cfg(max_tasks=6, sync=True, ctx=("rec",), dag=False, ditem=True, prio="tiefree", convs=("call", "value"), early_result=False,
+    cfg = gen.Cfg(max_tasks=6, sync=True, ctx=("rec",), dag=False, ditem=True, itemvalue=True, prio="tiefree", convs=("call", "value"), early_result=False,
                   shapes=("comb", "reentry", "tree", "stagger", "free", "chain"))
     return st.integers(2, n_max).flatmap(lambda n: st.fixed_dictionaries({
         "progs": st.lists(gen.programs(cfg), min_size=n, max_size=n),
@@ -33,7 +33,7 @@ def strategy_turnstile(tier):
 
 def strategy_free(tier):
     n_max = 5 if tier == "quick" else 16
-    cfg = gen.Cfg(max_tasks=6, sync=True, ctx=("rec",), dag=False, ditem=True, prio="tiefree", convs=("call", "value"), early_result=False,
+    cfg = gen.Cfg(max_tasks=6, sync=True, ctx=("rec",), dag=False, ditem=True, itemvalue=True, prio="tiefree", convs=("call", "value"), early_result=False,
                   shapes=("comb", "reentry", "tree", "stagger", "free", "chain"))
     return st.integers(2, n_max).flatmap(lambda n: st.fixed_dictionaries({
         "progs": st.lists(gen.programs(cfg), min_size=n, max_size=n), "repeat": st.just(3 if tier == "quick" else 10), "mode": st.just("free")}))
@@ -129,12 +129,23 @@ def thread_body(tid, prog, sync, out):
             va = yield a
             return [va, va, True]
         res["dedupe"] = [use(), len(runs)]
+        # a task object created by the thread that started this one (as with pool.submit(task.value)) is computed here:
+        # by this thread's scheduler, with this thread's active task
+        ho = out.get("__handoff__", {}).get(tid)
+        if ho is not None:
+            box, task = ho
+            box["sync"] = sync
+            box["runner"] = threading.current_thread()
+            v = task.value()
+            res["handoff"] = [v, box.get("active"), box.get("same_thread")]
         # leave per-thread debug-batch state behind (a request that is never flushed): nothing of it may ever be
         # seen by another thread, not even by a later thread that happens to get this thread's recycled ident
         res["leftover"] = DebugBatchItem("dbg", 99)
         stats = profiler.flush()
         # counter and function / batch type (the argument reprs contain addresses and thread names)
-        res["profile"] = sorted(str(s.get("name")).split("(")[0].strip() for s in stats)
+        names = [str(s.get("name")).split("(")[0].strip() for s in stats]
+        # (the handed-over task was numbered by the thread that created it)
+        res["profile"] = sorted(nm.split(".", 1)[1] if nm.endswith(".handed_over") else nm for nm in names)
         res["active_after"] = scheduler.get_active_task() is None and len(scheduler.get_scheduler()._tasks) == 0
     except BaseException as e:
         res["crash"] = "%s: %s" % (type(e).__name__, str(e)[:200])
@@ -190,8 +201,29 @@ def make_shared():
     return shared
 
 
+def make_handoff(k):
+    from asynq import asynq as A, scheduler
+    from asynq.batching import DebugBatchItem
+    box = {}
+
+    @A()
+    def handed_over(k):
+        s = box.get("sync")
+        box["active"] = [scheduler.get_active_task() is box["task"]]
+        if s is not None:
+            s()
+        v = yield DebugBatchItem("c16ho", k)
+        if s is not None:
+            s()
+        box["active"].append(scheduler.get_active_task() is box["task"])
+        box["same_thread"] = threading.current_thread() is box["runner"]
+        return ["handed-over", v]
+    box["task"] = handed_over.asynq(k)
+    return box, box["task"]
+
+
 def run_solo(prog, shared, tid):
-    out = {"__shared__": shared}
+    out = {"__shared__": shared, "__handoff__": {tid: make_handoff(tid)}}
     t = threading.Thread(target=thread_body, args=(tid, prog, None, out))
     t.start()
     t.join(60)
@@ -199,7 +231,7 @@ def run_solo(prog, shared, tid):
 
 
 def comparable(res, me):
-    d = dict((k, res.get(k)) for k in ("trace", "profile", "active_after", "crash"))
+    d = dict((k, res.get(k)) for k in ("trace", "profile", "active_after", "crash", "handoff"))
     dd = res.get("dedupe")
     if dd is not None:
         dd = [[[x[0] == me, x[1]] if isinstance(x, list) else x for x in dd[0]], dd[1]]
@@ -223,7 +255,7 @@ def check(case, ctx):
         rounds = 1 if case["mode"] == "turnstile" else case["repeat"]
         flushing = 0
         for rnd in range(rounds):
-            out = {"__shared__": shared}
+            out = {"__shared__": shared, "__handoff__": {i: make_handoff(i) for i in range(n)}}
             threads = []
             if case["mode"] == "turnstile":
                 ts = out["__turnstile__"] = Turnstile(case["schedule"])
